@@ -62,15 +62,15 @@ type Violation struct {
 
 // shardResult is what a worker sends back for one shard.
 type shardResult struct {
-	Shard      string           `json:"shard"`
-	Evals      int64            `json:"evals"`
-	Outcomes   []uint64         `json:"outcomes"`
-	Trivial    int64            `json:"trivial"`
-	Counters   map[string]int64 `json:"counters"`
+	Shard      string            `json:"shard"`
+	Evals      int64             `json:"evals"`
+	Outcomes   []uint64          `json:"outcomes"`
+	Trivial    int64             `json:"trivial"`
+	Counters   map[string]int64  `json:"counters"`
 	Samples    []json.RawMessage `json:"samples"`
-	Violations []Violation      `json:"violations"`
-	Complete   bool             `json:"complete"`
-	Notes      []string         `json:"notes"`
+	Violations []Violation       `json:"violations"`
+	Complete   bool              `json:"complete"`
+	Notes      []string          `json:"notes"`
 }
 
 // Reporter is handed to the check body in a worker.
@@ -89,8 +89,8 @@ type Reporter struct {
 
 const maxOutcomes = 1 << 18
 
-func (r *Reporter) Eval()            { r.res.Evals++; atomic.AddInt64(r.seq, 1) }
-func (r *Reporter) EvalN(n int64)    { r.res.Evals += n; atomic.AddInt64(r.seq, 1) }
+func (r *Reporter) Eval()         { r.res.Evals++; atomic.AddInt64(r.seq, 1) }
+func (r *Reporter) EvalN(n int64) { r.res.Evals += n; atomic.AddInt64(r.seq, 1) }
 func (r *Reporter) Count(k string, n int64) {
 	r.res.Counters[k] += n
 }
@@ -849,3 +849,6 @@ func readJournal(p string) string {
 	}
 	return string(bytes.TrimRight(b[8:8+n], "\x00"))
 }
+
+// Trunc shortens a string for messages.
+func Trunc(s string, n int) string { return trunc(s, n) }
